@@ -85,7 +85,9 @@ func (e wEdges) enc(dl, dr int) string {
 	return fmt.Sprintf("%d,%d,%d,%d", l, r, bl, e.Border)
 }
 
-func (e wEdges) plain() bool { return e.PadForm == "" && e.Over == "" && e.Border == 0 && e.BorderL == 0 }
+func (e wEdges) plain() bool {
+	return e.PadForm == "" && e.Over == "" && e.Border == 0 && e.BorderL == 0
+}
 
 type wWidth struct {
 	Kind string `json:"kind"` // a p x
